@@ -1378,7 +1378,8 @@ def impl_spec(case):
             out.append(real)
         if paths:
             obs["tags"].add("path-rule")
-    return {"out": out, "problems": obs["problems"][:5], "tags": sorted(obs["tags"]), "rules": len(classes)}
+    # ALL problems of the case are handed to the oracle (it reports the first one the known finding does not explain)
+    return {"out": out, "problems": obs["problems"][:200], "tags": sorted(obs["tags"]), "rules": len(classes)}
 
 
 def impl(case):
@@ -1442,9 +1443,25 @@ def oracle(case, res):
                 if why:
                     return why
         return None
-    if res.get("problems"):
-        return res["problems"][0]
+    probs = res.get("problems") or []
+    if probs:
+        # every problem of the case is examined: those the ONE known finding explains (same test as finding_match;
+        # its expensive conjunct, the brute-force failure of fixed_honest, was computed by impl: tag fixed-dishonest)
+        # are dropped, the first UNMASKED problem is the verdict; only if all are masked is the first one returned
+        # (finding_match then prints KNOWN-FINDING for it)
+        unmasked = [p for p in probs if not _masked(case, res, p)]
+        return unmasked[0] if unmasked else probs[0]
     return None
+
+
+def _masked(case, res, why):
+    """would finding_match attribute this single problem to the known finding?  (cheap form, for the oracle)"""
+    if case.get("kind") != "stats" or "fixed-dishonest" not in (res.get("tags") or []):
+        return False
+    if not any(rx.search(why) for rx in _FAIL_SHAPES):
+        return False
+    spec = get_spec("stats", case["cls"])
+    return not isinstance(spec, tuple) and _untracked_child_statistic(spec)
 
 
 # ------------------------------------------------------------------ known findings
@@ -1578,14 +1595,85 @@ _BAD_SNIPPETS = [
 ]
 
 
+# ------------------------------------------------------------------ one deep sample per run
+BIG_N = 120
+_BIG_CLASSES = [["", ["aa"], "ab"], ["", ["bab"], "ab"], ["", ["abc"], "abc"], ["a", ["bbb"], "ab"]]
+
+
+class _LcgSource(Source):
+    """deterministic in-range draws (a private random.Random(seed)), recorded like Source"""
+
+    def __init__(self, seed):
+        Source.__init__(self)
+        import random as _random
+
+        self.rng = _random.Random(seed)
+
+    def randint(self, lo, hi):
+        if hi < lo:
+            raise ValueError("empty range for randrange() (%d, %d, %d)" % (lo, hi + 1, hi + 1 - lo))
+        v = self.rng.randint(lo, hi)
+        self.trace.append([lo, hi, v])
+        return v
+
+
+def big_sample_check(seed):
+    """ONE specification per run (chosen by the seed), ONE sample of size BIG_N = 120 with deterministic draws, under
+    the interpreter's DEFAULT recursion limit (1000; the library raises it itself through utils.RecursionLimit):
+    the call must return an object of the class of size exactly 120 whenever the specification counts at least one
+    (total mass at a depth no enumerated size reaches: lost mass, a recursion that no longer fits the limit the
+    library requests, a draw range that is wrong only for large counts)."""
+    import sys
+
+    cls = _BIG_CLASSES[seed % len(_BIG_CLASSES)]
+    name = "one sample at size %d (words %r)" % (BIG_N, cls)
+    spec = get_spec("words", cls)
+    if isinstance(spec, tuple):
+        return (name, False, "no specification: %s" % (spec[1],))
+    old = sys.getrecursionlimit()
+    src = _LcgSource(seed)
+    try:
+        sys.setrecursionlimit(1000)
+        cnt = spec.count_objects_of_size(BIG_N)
+        if cnt <= 0:
+            return (name, False, "the specification counts %d objects of size %d" % (cnt, BIG_N))
+        with patched(src):
+            obj = spec.random_sample_object_of_size(BIG_N)
+    except BaseException as ex:  # pylint: disable=broad-except
+        return (name, False, "failing input: random_sample_object_of_size(%d) of the words %r: %d draws, then %s: %s"
+                % (BIG_N, cls, len(src.trace), type(ex).__name__, str(ex)[:200]))
+    finally:
+        sys.setrecursionlimit(old)
+    w = str(obj)
+    prefix, pats, alph = cls
+    ok = (len(w) == BIG_N and set(w) <= set(alph) and w.startswith(prefix) and not any(p_ in w for p_ in pats)
+          and all(lo <= v <= hi for lo, hi, v in src.trace))
+    # uniformity at this size cannot be enumerated; what can be decided: the root rule (a union / product rule: the
+    # constructors that draw) picks among exactly `count` objects, i.e. its draw is randint(1, count) - the same
+    # statement the per-rule items make at small sizes, here with a count far above 2^53
+    if ok and rule_kind(spec.root_rule) in (K_UNION, K_PRODUCT) and src.trace[:1] != [[1, cnt, (src.trace or [[0, 0, 0]])[0][2]]]:
+        return (name, False, "failing input: random_sample_object_of_size(%d) of the searched specification of the words %r: "
+                "the root rule's draw has range %r, the class has %d objects of size %d"
+                % (BIG_N, cls, src.trace[:1] and src.trace[0][:2], cnt, BIG_N))
+    return (name, ok, "%d rules, count has %d digits, %d draws, returned %r (length %d)%s"
+            % (spec.number_of_rules(), len(str(cnt)), len(src.trace), w[:40] + "...", len(w),
+               "" if ok else " - failing input: random_sample_object_of_size(%d) with random.Random(%d) draws does NOT "
+               "return an object of the class of size %d" % (BIG_N, seed, BIG_N)))
+
+
 def extra_checks(ctx):
     from harness import gen_selftest
 
-    return [gen_selftest.rejects(_BAD_SNIPPETS)] + gen_selftest.checks(
+    return [big_sample_check(ctx.seed), gen_selftest.rejects(_BAD_SNIPPETS)] + gen_selftest.checks(
         ["product_reliance_profile", "product_valid_compositions", "product_min_sizes", "product_max_sizes"], ctx.seed, ID)
 
 
 # translator tie (DESIGN.md 10.9): what the regenerated definitions add to the level
 LEVEL_NOTE += (
     " Translator tie: CartesianProduct.reliance_profile and _valid_compositions (with its nested generator _helper) and the properties min_sizes / max_sizes are RE-TRANSLATED from cartesian.py on every run (Gen/ProductRelianceProfile.v, Gen/ProductValidCompositions.v, Gen/ProductMinSizes.v, Gen/ProductMaxSizes.v); C08_valid_compositions_is_source proves that the model's valid_comps IS the regenerated function read through the name->position encoding (for every list of distinct parameter names whose first is the name of n, at least one child, vectors of the right length), C08_bounds_are_source that the bounds handed to utils.compositions are column 0 of those vectors (Count/GenBridgeValidComps.v); the regenerated definitions are evaluated against the source functions on random arguments every run (harness/gen_selftest.py)."
+)
+
+# strengthening of the oracles (CLAUSES.md G.1 item 10)
+RULE += (
+    ' The oracle examines ALL problems of a case and reports the first one the open finding does not explain (a masked first problem no longer hides the rest of the case). Once per run (extra check): ONE sample of size 120 from one word specification chosen by the seed, deterministic in-range draws, interpreter recursion limit 1000 - it must be an object of the class of size 120 and the root union/product rule must draw from randint(1, count).'
 )
